@@ -41,17 +41,6 @@
 #error "define C14_SITE before including c14_env.h"
 #endif
 
-#if defined(C14_DFCC) && !defined(VERIF_REPLAY)
-/* goto-instrument --dfcc gives every body-less function the body
- * "assert(false); assume(false)"; __CPROVER_cover is one (cbmc only treats it
- * specially under --cover). Give it an empty body so that cover points do
- * not cut the paths; cbmc --cover still instruments the call sites. */
-void __CPROVER_cover(_Bool c)
-{
-	(void)c;
-}
-#endif
-
 #define C14_SUPER_SZ ((sqfs_u64)sizeof(sqfs_super_t))
 /* the OS refuses to grow a file beyond this (EFBIG; off_t is 63 bit) */
 #define C14_FILE_MAX ((sqfs_u64)1 << 62)
